@@ -129,6 +129,15 @@ def case_dump(case):
     frames = make_frames(fmt, rng, n)
     viols, feats = [], []
     counters = {"dump_many_calls": 0, "pull_events": 0, "write_events": 0, "frames_compared": 0, "logs_checked": 0}
+    kw = {}
+    if fmt == "xyz" and case["i"] % 3 == 2:
+        # the optional keyword of the XYZ functions: user-defined atom columns (here a charge column), the same for every call
+        from iodata.formats.xyz import DEFAULT_ATOM_COLUMNS
+
+        kw["atom_columns"] = [*DEFAULT_ATOM_COLUMNS, ("atcharges", "user", (), float, float, "{:10.5f}".format)]
+        for f in frames:
+            f.atcharges = {"user": np.round(rng.normal(size=f.natom), 5)}
+        counters["custom_column_cases"] = 1
     root = tempfile.mkdtemp(prefix="vf_c13_")
     try:
         # reference: per-frame save and reload
@@ -137,8 +146,8 @@ def case_dump(case):
             warnings.simplefilter("ignore")
             for k, f in enumerate(frames):
                 p = os.path.join(root, go.filename(fmt, f"single{k}"))
-                iodata.dump_one(f, p)
-                ref.append(iodata.load_one(p))
+                iodata.dump_one(f, p, **kw)
+                ref.append(iodata.load_one(p, **kw))
         for mode in ("list", "generator", "raising"):
             raise_at = None
             if mode == "raising":
@@ -155,7 +164,7 @@ def case_dump(case):
             with fileproxy.OpenProxy(log) as px, warnings.catch_warnings():
                 warnings.simplefilter("ignore")
                 try:
-                    iodata.dump_many(arg, path)
+                    iodata.dump_many(arg, path, **kw)
                     outcome = "returned"
                 except Boom:
                     outcome = "Boom"
@@ -188,7 +197,7 @@ def case_dump(case):
             with warnings.catch_warnings():
                 warnings.simplefilter("ignore")
                 try:
-                    got = list(iodata.load_many(path))
+                    got = list(iodata.load_many(path, **kw))
                 except iodata.utils.LoadError as exc:
                     viols.append(_v("reload-failed", f"{tag}: written file cannot be read back: {exc}"))
                     continue
